@@ -281,6 +281,10 @@ class Intrinsics:
             return a == b
         if isinstance(a, ExternalRef) and isinstance(b, ExternalRef):
             return a.obj is b.obj
+        if isinstance(a, SV) and isinstance(b, SV) and type(a) is type(b):
+            if a.t.eq(b.t):
+                return True
+            return a.t == b.t  # immutable values: identity read as equality
         if self.ex.is_concrete(a) and self.ex.is_concrete(b):
             return a is b or (type(a) is type(b) and a == b and isinstance(a, (int, str)))
         raise Unsupported(f"identity of {a!r} and {b!r}")
@@ -767,6 +771,10 @@ class Intrinsics:
         if isinstance(obj, SPath):
             return path_getattr(self, obj, attr)
         if isinstance(obj, (SStr, str, SMarkup)):
+            if attr == "__class__":
+                import markupsafe
+
+                return ExternalRef(markupsafe.Markup if isinstance(obj, SMarkup) else str, "str")
             return BoundIntrinsic(obj, "str", attr)
         if isinstance(obj, (HList, HJoin)):
             return BoundIntrinsic(obj, "list", attr)
@@ -893,6 +901,8 @@ class Intrinsics:
             rep = markupsafe.Markup("")
         if isinstance(ty, ExternalRef):
             pt = ty.obj
+            if not isinstance(pt, type):
+                pt = getattr(pt, "__origin__", None)  # typing.Mapping -> collections.abc.Mapping
             if not isinstance(pt, type):
                 raise Unsupported(f"isinstance against {ty.qual}")
             if rep is not None:
